@@ -1,5 +1,5 @@
 """Registry: which stages decide which property (see DESIGN.md section 5)."""
-from checklib import PROPS, make_prop, ES, GS, tlc_only_stage, refstore_stage, session_stage
+from checklib import PROPS, make_prop, ES, GS, tlc_only_stage, refstore_stage, session_stage, long_session_stage
 from tracestages import TE, api_stage
 
 COMMON_ASSUME = [
@@ -37,9 +37,9 @@ def tlaps_stage(ev, tier, seed):
 
 
 NT = "non-trivial = the specification's nodelist is non-empty; distinct = distinct REPLAY lines"
-PROPS["C01"] = make_prop("C01", [ES("C01", "C01", "nodes"), ES("C01", "C11", "nodes"), ES("C01", "C05", "nodes"), TE("C01", {"nodes", "outcome", "seg"})],
+PROPS["C01"] = make_prop("C01", [ES("C01", "C01", "nodes"), ES("C01", "C11", "nodes"), ES("C01", "C05", "nodes"), ES("C01", "C01D", "nodes"), TE("C01", {"nodes", "outcome", "seg"})],
     "every (document, query) pair of universe C01 (strided by seed) driven through the evaluation machine; " + NT, COMMON_ASSUME)
-PROPS["C02"] = make_prop("C02", [ES("C02", "C01", "order"), ES("C02", "C11", "order"), TE("C02", {"order"})],
+PROPS["C02"] = make_prop("C02", [ES("C02", "C01", "order"), ES("C02", "C11", "order"), ES("C02", "C15", "order"), ES("C02", "C01D", "order"), TE("C02", {"order"})],
     "as C01 but the result SEQUENCE is compared; " + NT, COMMON_ASSUME)
 PROPS["C03"] = make_prop("C03", [ES("C03", "C03", "paths"), ES("C03", "C11", "paths", mode="paths"), ES("C03", "C01", "paths", mode="paths"), TE("C03", {"paths"})],
     "member names over a hostile alphabet reached through every route kind; each result's path compared with the spec's NormalizedPath of the node found by address, equal-paths<=>same-node, and re-query of the reported path; " + NT, COMMON_ASSUME)
@@ -53,7 +53,7 @@ PROPS["C10"] = make_prop("C10", [ES("C10", "C10", "nodes")],
 PROPS["C11"] = make_prop("C11", [tlaps_stage, slice_loop_stage, ES("C11", "C11", "order"), TE("C11", {"slice"})],
     "all (start,end,step) over a window around the array length plus the +-BIG abstraction of +-(2^53-1) x all lengths; all indices; also under a descendant segment; plus the loop machine SliceLoop.tla on the spec side; " + NT,
     COMMON_ASSUME + ["BIG abstraction: an integer beyond the window behaves like its saturated representative (DESIGN 3.1)"])
-PROPS["C12"] = make_prop("C12", [lambda ev, tier, seed: session_stage(ev, "C12", tier, seed), ES("C12", "C01", "entry"), ES("C12", "C05", "entry")],
+PROPS["C12"] = make_prop("C12", [lambda ev, tier, seed: session_stage(ev, "C12", tier, seed), lambda ev, tier, seed: long_session_stage(ev, "C12", tier, seed), ES("C12", "C01", "entry"), ES("C12", "C05", "entry")],
     "the three entry points, the prepared query and a repetition compared position by position on every behaviour; document snapshot before/after; " + NT, COMMON_ASSUME)
 PROPS["C14"] = make_prop("C14", [ES("C14", "C14", "nodes")],
     "five extension functions over all (x, L) pairs of element values, arrays of them, non-arrays and missing members; also negated and with $-rooted argument; " + NT,
